@@ -25,3 +25,9 @@ claim("C11",
       "Static necessary conditions: the set of destructive file operations in the repository equals a frozen 6-entry who-may-destroy table with path provenance; plot files are erased only via DeleteWS (call-graph cut) and RemoveWS reaches no destructive op; remove/delete effects lie behind the Registered-or-Ready gate (v1 and v2) and MassDBV1.Delete behind plotting==0; every load check dominates indexing in generateInitialIndex; a real header-vs-name comparison guards OpenDB's success; loadHashMap's six header checks guard its success. Holds for all histories/directory contents because each is a property of all CFG/call-graph paths.",
       "Trusted: go/ssa, CHA call graph over repo types (VTA in thorough), frozen who-may-destroy table, state constant values. Not decided: behaviour for all directory contents as values, the regular expression's language, exactly-once beyond the duplicate gate.",
       "DESIGN.md §4 C11")
+
+claim("C14",
+      "pairwise lockset analysis (must-held locks, interprocedural fixpoint, per-instance lock identity)",
+      "Decides only the lock-discipline half of 'free of data races': for every field of the wallet's shared types stored after construction, every store shares a held lock with every other access of that field, for all interleavings (a lockset fact is schedule-independent). Entry locksets are computed, not assumed; a.mu counts only when the locked object is the accessed object.",
+      "Trusted: go/ssa, sync.Mutex semantics, composite literals under construction are unshared. NOT decided: linearizability/real-time order, races on pointees reached through method calls on loaded pointers (SecretKey.Zero, ManagedAddress fields), races inside mass-core/leveldb.",
+      "DESIGN.md §4 C14")
